@@ -25,7 +25,7 @@ BOUNDS = {'quick': 'Zygo: shapes 1x3, 3x1, 2x3, 3x2, 3x3 with 4 NaN patterns; cu
           'thorough': 'Zygo: shapes up to 4x5; cuts at every byte of the data block of a 2x3 file. Code V: shapes up to 3x3, 2x4, 4x2, extreme sample at '
                       'every valid cell with both signs'}
 OUTSIDE = ('Code V: the digits of a number (a cut inside a number, which a text format cannot distinguish from a shorter number), comment lines and '
-           'titles containing "!", all-NaN maps, |h| > 10^4 nm; read_zygo_datx (HDF5), Zygo ASCII, multi-bucket intensity frames')
+           'titles containing "!", all-NaN maps, symbolic amplitudes above 10^4 nm (two concrete amplitudes of 10^7 and 10^9 nm are included); read_zygo_datx (HDF5), Zygo ASCII, multi-bucket intensity frames')
 NDERIVED = 120
 MAX_PATHS = 64
 CFG_TIMEOUT = {'quick': 900, 'thorough': 3600}
@@ -60,13 +60,20 @@ def configs(tier):
     for shp in cvshapes:
         for pat in ('none', 'corner'):
             cells = [(i, j) for i in range(shp[0]) for j in range(shp[1]) if (i, j) not in nan_cells(pat, shp)]
-            peaks = [cells[0], cells[-1]] if q else cells
+            big = shp[0] * shp[1] > 6
+            # thorough: every valid cell for maps of up to 6 samples; first / middle / last for the larger ones (the number of orderings of
+            # the samples, hence of paths, grows factorially)
+            peaks = [cells[0], cells[-1]] if q else (cells if not big else [cells[0], cells[len(cells) // 2], cells[-1]])
             for pk in peaks:
                 for sgn in (1, -1):
-                    if q and (sgn == 1) != (pk == cells[0]) and shp != (2, 3):
+                    if (q or big) and (sgn == 1) != (pk == cells[0]) and shp != (2, 3):
                         continue
                     out.append({'name': 'codev-roundtrip-%dx%d-%s-peak%d%d%s' % (shp[0], shp[1], pat, pk[0], pk[1], '+' if sgn > 0 else '-'),
                                 'kind': 'cv', 'shape': list(shp), 'nan': pat, 'vals': 'free', 'peak': list(pk), 'sign': sgn})
+    # amplitudes far above a micron (concrete, so that whatever the writer puts in the header is formatted as the real code formats it)
+    for huge in ('10^7+1/3', '10^9'):
+        out.append({'name': 'codev-roundtrip-2x3-huge-%s' % huge, 'kind': 'cv', 'shape': [2, 3], 'nan': 'none', 'vals': 'huge', 'huge': huge,
+                    'peak': [1, 1], 'sign': -1})
     # ties: a second sample with the opposite extreme value
     out.append({'name': 'codev-roundtrip-2x3-tie', 'kind': 'cv', 'shape': [2, 3], 'nan': 'none', 'vals': 'free', 'peak': [0, 1], 'sign': 1, 'tie': [1, 2]})
     out.append({'name': 'codev-roundtrip-3x1-tie', 'kind': 'cv', 'shape': [3, 1], 'nan': 'none', 'vals': 'free', 'peak': [2, 0], 'sign': -1, 'tie': [0, 0]})
@@ -100,6 +107,8 @@ def build(H, cfg):
         v = cfg['vals']
         if v == 'free':
             amp = H.param('a')
+        elif v == 'huge':
+            amp = H.frac(3 * 10 ** 7 + 1, 3) if cfg['huge'].startswith('10^7') else H.frac(10 ** 9)
         elif v == 'tiny':
             amp = H.frac(1000, 2 ** 60) if cfg['tiny'].startswith('2^') else H.frac(15 * 1000, 16 * 2 ** 52)
         else:
